@@ -24,6 +24,8 @@ pub struct Case {
     pub children: Vec<String>,
     /// instances of the top (and of nested children) with at least one port tied to a constant / partly constant value
     pub const_tied: usize,
+    /// construction-time facts about the design that go into the evidence as counters
+    pub counters: Vec<(String, i64)>,
 }
 
 fn ty(w: usize, signed: bool) -> String {
@@ -53,6 +55,7 @@ pub struct B {
     pub rst_ty: String,
     pub children: Vec<String>,
     pub const_tied: usize,
+    pub counters: Vec<(String, i64)>,
 }
 
 impl B {
@@ -71,6 +74,13 @@ impl B {
             rst_ty: "reset".into(),
             children: vec![],
             const_tied: 0,
+            counters: vec![],
+        }
+    }
+    pub fn tally(&mut self, name: &str, n: i64) {
+        match self.counters.iter_mut().find(|c| c.0 == name) {
+            Some(c) => c.1 += n,
+            None => self.counters.push((name.to_string(), n)),
         }
     }
     pub fn feat(&mut self, f: &str) {
@@ -127,6 +137,7 @@ impl B {
             ports: self.ports,
             children: self.children,
             const_tied: self.const_tied,
+            counters: self.counters,
         }
     }
 }
@@ -810,6 +821,144 @@ fn t_hierc(rng: &mut Rng) -> Case {
     b.finish("hierc")
 }
 
+/// Frozen registers: a register that only ever holds its reset value (its write is under `if 1'b0`, under an
+/// enable that is a constant 0 — local const, or a child port the parent ties low —, or it is written with
+/// itself) is folded to a constant by `eliminate_dq_ffs`; every consumer of its Q has to be rewired.  The
+/// consumers here: (a) another register's D pin directly, (b) a register chain, (c) an output, (d) a gate (and a
+/// register behind a gate), (e) a memory write port / array element, (f) a child instance port that registers it
+/// directly — flat, and with the frozen register living inside a child whose enable the parent ties to 0.
+fn t_frozen(rng: &mut Rng) -> Case {
+    let mut b = B::new("frozen");
+    b.has_ff = true;
+    let w = 1 + rng.usize(if rng.chance(1, 4) { 70 } else { 12 });
+    let lw = w.min(64);
+    let x = b.input(w, false);
+    let en = b.input(1, false);
+    // child used for (f) and for the hierarchical frozen register
+    b.pre.push_str(&format!(
+        "module FzSink (\n    i_clk: input clock,\n    i_rst: input reset,\n    d: input logic<{w}>,\n    q: output logic<{w}>,\n) {{\n    always_ff {{\n        if_reset {{\n            q = 0;\n        }} else {{\n            q = d;\n        }}\n    }}\n}}\n\n"
+    ));
+    b.pre.push_str(&format!(
+        "module FzCfg (\n    i_clk: input clock,\n    i_rst: input reset,\n    we: input logic,\n    d: input logic<{w}>,\n    q: output logic<{w}>,\n    q2: output logic<{w}>,\n) {{\n    var r: logic<{w}>;\n    always_ff {{\n        if_reset {{\n            r = {};\n        }} else if we {{\n            r = d;\n        }}\n    }}\n    assign q = r;\n    always_ff {{\n        if_reset {{\n            q2 = 0;\n        }} else {{\n            q2 = r;\n        }}\n    }}\n}}\n\n",
+        lit(rng, lw)
+    ));
+    let nfrozen = 2 + rng.usize(3);
+    for k in 0..nfrozen {
+        let cfg = format!("cfg{k}");
+        let rv = match rng.below(4) {
+            0 => "0".to_string(),
+            1 => format!("{lw}'h{:x}", if lw == 64 { u64::MAX } else { (1u64 << lw) - 1 }),
+            _ => lit(rng, lw),
+        };
+        let with_reset = !rng.chance(1, 6);
+        let how = rng.below(5);
+        b.tally("frozen_registers", 1);
+        if !with_reset {
+            b.tally("frozen_registers_without_reset", 1);
+        }
+        let hier = how == 4 && with_reset;
+        if hier {
+            // the frozen register lives in a child; only the parent's tie-off makes it constant
+            b.d(&format!("    var {cfg}: logic<{w}>;\n    var {cfg}_q2: logic<{w}>;"));
+            b.b(&format!("    inst fz{k}: FzCfg (\n        i_clk,\n        i_rst,\n        we: 0,\n        d: {x},\n        q: {cfg},\n        q2: {cfg}_q2,\n    );"));
+            let o = b.output(w, false);
+            b.b(&format!("    assign {o} = {cfg}_q2;"));
+            b.tally("frozen_registers_in_child_with_tied_enable", 1);
+            b.tally("frozen_ff_feeds_ff_directly", 1); // q2 = r inside the child
+            b.feat("frozen_in_child");
+        } else {
+            b.d(&format!("    var {cfg}: logic<{w}>;"));
+            let body = match how {
+                0 | 4 => format!("if 1'b0 {{\n            {cfg} = {x};\n        }}"),
+                1 => format!("{{\n            {cfg} = {cfg};\n        }}"),
+                2 => {
+                    b.d(&format!("    const FZ_EN{k}: logic = 1'b0;"));
+                    format!("if FZ_EN{k} {{\n            {cfg} = {x};\n        }}")
+                }
+                _ => format!("if {en} && 1'b0 {{\n            {cfg} = {x} + 1;\n        }}"),
+            };
+            b.feat(["frozen_if_const_false", "frozen_self_assign", "frozen_const_enable", "frozen_and_false", "frozen_if_const_false"][how as usize]);
+            if with_reset {
+                let sep = if how == 1 { "else" } else { "else" };
+                b.b(&format!("    always_ff {{\n        if_reset {{\n            {cfg} = {rv};\n        }} {sep} {body}\n    }}"));
+            } else if how == 1 {
+                b.b(&format!("    always_ff {{\n        {cfg} = {cfg};\n    }}"));
+            } else {
+                b.b(&format!("    always_ff {{\n        {body}\n    }}"));
+            }
+        }
+        // consumers
+        let mut kinds: Vec<u64> = (0..6).collect();
+        rng.shuffle(&mut kinds);
+        let ncons = 2 + rng.usize(4);
+        let mut chosen: Vec<u64> = kinds.into_iter().take(ncons).collect();
+        if !chosen.contains(&0) {
+            chosen.push(0); // (a) is the shape the seeded defect needs: always present
+        }
+        for c in chosen {
+            match c {
+                0 => {
+                    let q = format!("{cfg}_a");
+                    let o = b.output(w, false);
+                    b.d(&format!("    var {q}: logic<{w}>;"));
+                    let hdr = *rng.pick(&["always_ff", "always_ff (i_clk)", "always_ff (i_clk, i_rst)"]);
+                    b.b(&format!("    {hdr} {{\n        if_reset {{\n            {q} = 0;\n        }} else {{\n            {q} = {cfg};\n        }}\n    }}\n    assign {o} = {q};"));
+                    b.tally("frozen_ff_feeds_ff_directly", 1);
+                }
+                1 => {
+                    let n = 2 + rng.usize(3);
+                    let o = b.output(w, false);
+                    let mut prev = cfg.clone();
+                    for j in 0..n {
+                        let q = format!("{cfg}_c{j}");
+                        b.d(&format!("    var {q}: logic<{w}>;"));
+                        b.b(&format!("    always_ff {{\n        if_reset {{\n            {q} = {};\n        }} else {{\n            {q} = {prev};\n        }}\n    }}", if j == 0 { "0".to_string() } else { lit(rng, lw) }));
+                        prev = q;
+                    }
+                    b.b(&format!("    assign {o} = {prev};"));
+                    b.tally("frozen_ff_feeds_ff_directly", 1);
+                    b.tally("frozen_ff_feeds_register_chain", 1);
+                }
+                2 => {
+                    let o = b.output(w, false);
+                    b.b(&format!("    assign {o} = {cfg};"));
+                    b.tally("frozen_ff_feeds_output", 1);
+                }
+                3 => {
+                    let o = b.output(w, false);
+                    let q = format!("{cfg}_g");
+                    b.d(&format!("    var {q}: logic<{w}>;"));
+                    let op = *rng.pick(&["^", "&", "|", "+"]);
+                    b.b(&format!("    always_ff {{\n        if_reset {{\n            {q} = 0;\n        }} else if {en} {{\n            {q} = {cfg} {op} {x};\n        }}\n    }}\n    assign {o} = {q} ^ ({cfg} {op} {x});"));
+                    b.tally("frozen_ff_feeds_gate", 1);
+                }
+                4 => {
+                    let depth = 1usize << (1 + rng.usize(3));
+                    let aw = clog2(depth);
+                    let wa = b.input(aw, false);
+                    let ra = b.input(aw, false);
+                    let o = b.output(w, false);
+                    let m = format!("{cfg}_mem");
+                    b.d(&format!("    var {m}: logic<{w}> [{depth}];"));
+                    b.b(&format!("    always_ff {{\n        if {en} {{\n            {m}[{wa}] = {cfg};\n        }}\n    }}\n    assign {o} = {m}[{ra}];"));
+                    b.arrays.push(depth * w);
+                    b.ports = (1, 1);
+                    b.tally("frozen_ff_feeds_memory_write_data", 1);
+                }
+                _ => {
+                    let o = b.output(w, false);
+                    let q = format!("{cfg}_s");
+                    b.d(&format!("    var {q}: logic<{w}>;"));
+                    b.b(&format!("    inst {cfg}_sink: FzSink (\n        i_clk,\n        i_rst,\n        d: {cfg},\n        q: {q},\n    );\n    assign {o} = {q};"));
+                    b.tally("frozen_ff_feeds_ff_directly", 1);
+                    b.tally("frozen_ff_feeds_child_register_port", 1);
+                }
+            }
+        }
+    }
+    b.finish("frozen")
+}
+
 fn t_iface(rng: &mut Rng) -> Case {
     let mut b = B::new("iface");
     b.has_ff = true;
@@ -953,7 +1102,7 @@ fn designgen(rng: &mut Rng, i: u64) -> Case {
     };
     let d = generate(rng, &opts);
     let arrays = if d.features.iter().any(|f| f.starts_with("ff_array")) { vec![64] } else { vec![] };
-    Case { kind: kind.to_string(), design: d, arrays, ports: (1, 1), children: vec![], const_tied: 0 }
+    Case { kind: kind.to_string(), design: d, arrays, ports: (1, 1), children: vec![], const_tied: 0, counters: vec![] }
 }
 
 pub const TEMPLATES: [&str; 11] = ["muldiv", "shift", "widemux", "decode", "counter", "scan", "ram", "hier", "iface", "resets", "fsm"];
@@ -975,23 +1124,25 @@ pub fn gen_case(seed: u64, i: u64) -> Case {
             "tiny2" => GenOpts { signed: false, ffs: (0, 0), combs: (0, 1), outputs: (1, 1), inputs: (2, 3), expr_depth: 2, max_width: 10, instances: false, ..base },
             "clean" => return crate::cleangen::clean_case(&mut rng, i),
             "hierc" => return t_hierc(&mut rng),
+            "frozen" => return t_frozen(&mut rng),
             "known" => return crate::known::probe(&mut rng, i),
             "tiny_ff" => GenOpts { signed: false, ffs: (1, 1), combs: (0, 0), outputs: (1, 1), inputs: (2, 3), expr_depth: 1, max_width: 10, instances: false, arrays: false, ..base },
             _ => base,
         };
         let d = generate(&mut rng, &opts);
-        return Case { kind: format!("dg_{mode}"), design: d, arrays: vec![], ports: (1, 1), children: vec![], const_tied: 0 };
+        return Case { kind: format!("dg_{mode}"), design: d, arrays: vec![], ports: (1, 1), children: vec![], const_tied: 0, counters: vec![] };
     }
-    // 20 slots: 5 cleangen, 12 templates (RAM twice), 1 vgen DesignGen, 2 known-defect probes
-    match i % 20 {
+    // 21 slots: 4 cleangen, 14 templates (RAM twice, hierc, frozen), 1 vgen DesignGen, 2 known-defect probes
+    match i % 21 {
         0 => crate::cleangen::clean_case(&mut rng, 0),
         3 => crate::cleangen::clean_case(&mut rng, 1),
         10 => crate::cleangen::clean_case(&mut rng, 2),
         15 => crate::cleangen::clean_case(&mut rng, 3),
         18 => t_hierc(&mut rng),
-        5 => designgen(&mut rng, i / 20),
-        13 => crate::known::probe(&mut rng, 2 * (i / 20)),
-        19 => crate::known::probe(&mut rng, 2 * (i / 20) + 1),
+        5 => designgen(&mut rng, i / 21),
+        13 => crate::known::probe(&mut rng, 2 * (i / 21)),
+        19 => crate::known::probe(&mut rng, 2 * (i / 21) + 1),
+        20 => t_frozen(&mut rng),
         1 => t_muldiv(&mut rng),
         2 => t_shift(&mut rng),
         4 => t_widemux(&mut rng),
